@@ -7,6 +7,7 @@ detector positions.  The reference is Lens(Mie) refined along a fixed
 quadrature ladder until two rungs agree per point; points where the ladder
 does not converge are counted and asserted about nothing.
 """
+import itertools
 import math
 import sys
 import types
@@ -15,7 +16,8 @@ import warnings
 import numpy as np
 
 import hpcases as H
-from lib import Checker, deviations, digest, fp_values, pick, vec_id
+from lib import (Checker, deviations, digest, fork_call, fp_values, pick,
+                 vec_id)
 
 PROPERTY = "C08"
 RULE = ("all vectors with <= D deviations (D=2 quick, full product thorough)"
@@ -67,8 +69,69 @@ def cases(tier, seed):
     # beyond the large-rho cut-off of the analytic theory (3.9 * quad_npts)
     for kr in (389.9, 390.1, 500.0):
         out.append({"id": "cutoff:krho=%r" % kr, "kind": "cutoff",
-                    "krho": kr, "tier": tier})
+                    "krho": kr, "tier": tier, "npts": 100})
+    # with a refined pupil quadrature the radial range extends accordingly
+    for kr in (389.9, 500.0, 700.0):
+        out.append({"id": "cutoff-quad200:krho=%r" % kr, "kind": "cutoff",
+                    "krho": kr, "tier": tier, "npts": 200})
+    # histories: the same / nearly the same sphere under different lens
+    # angles, depths, quadrature orders and theories in one interpreter
+    refs = {}
+    for name in HOPS:
+        st, val = fork_call(_hop, name, timeout=600)
+        refs[name] = val if st == "ok" else "FAILED:%s:%r" % (st, val)
+    L = 2 if tier == "quick" else 3
+    for n in range(1, L + 1):
+        for seq in itertools.product(list(HOPS), repeat=n):
+            out.append({"id": "hist:" + ">".join(seq), "kind": "history",
+                        "seq": list(seq), "ref": {o: refs[o] for o in seq}})
     return out
+
+
+HOPS = {  # name -> (theory kind, lens angle, m, x, kz, accuracy kwargs)
+    "A@0.4": ("mielens", 0.4, 1.2, 5.0, 20.0, {}),
+    "A@0.8": ("mielens", 0.8, 1.2, 5.0, 20.0, {}),
+    "A@1.2": ("mielens", 1.2, 1.2, 5.0, 20.0, {}),
+    "A@0.8-z": ("mielens", 0.8, 1.2, 5.0, 20.5, {}),
+    "A@0.8-q150": ("mielens", 0.8, 1.2, 5.0, 20.0, {"quad_npts": 150}),
+    "A'@0.8": ("mielens", 0.8, 1.2001, 5.0, 20.0, {}),
+    "ab@0.8": ("abmielens", 0.8, 1.2, 5.0, 20.0, {}),
+    "lens@0.8": ("lens", 0.8, 1.2, 5.0, 20.0, {}),
+}
+
+
+def _hop(name):
+    from holopy.scattering.theory import (MieLens, AberratedMieLens, Lens,
+                                          Mie)
+    kind, ang, m, x, kz, acc = HOPS[name]
+    sph, pts = _setup(m, x, kz)
+    det = H.det_points(pts[:9])
+    with warnings.catch_warnings():
+        warnings.simplefilter("ignore")
+        if kind == "mielens":
+            th = MieLens(ang, acc)
+        elif kind == "abmielens":
+            th = AberratedMieLens([0.05, 0.01], ang)
+        else:
+            th = Lens(ang, Mie(False, False), 48, 48)
+    return digest(np.ascontiguousarray(_field(det, sph, th, _pol(30.0))))
+
+
+def _run_history(case, ck):
+    outs = []
+    for i, name in enumerate(case["seq"]):
+        ref = case["ref"][name]
+        if str(ref).startswith("FAILED"):
+            ck.true("pristine-reference", False, "%s failed in a pristine "
+                    "interpreter: %s" % (name, ref))
+            return "ref-failed"
+        got = _hop(name)
+        ck.trans += 1
+        ck.true("history-independent", got == ref, "step %d (%s) of %s gives "
+                "a different field than the same call in a pristine "
+                "interpreter" % (i + 1, name, ">".join(case["seq"])))
+        outs.append(got)
+    return digest(*outs)
 
 
 def _setup(m, x, kz):
@@ -296,7 +359,9 @@ def _run_cutoff(case, ck):
     pol = _pol(0.0)
     lad = [384, 768, 1536]
     ref, ok, N = _reference(det, sph, ang, pol, lad, ck)
-    f = _field(det, sph, MieLens(ang), pol)
+    npts = case.get("npts", 100)
+    f = _field(det, sph, MieLens(ang, {"quad_npts": npts} if npts != 100
+                                 else {}), pol)
     ck.trans += 1
     # peak of the same configuration on the axis, for scale
     det0 = H.det_points([[0.0, 0.0, 0.0]])
@@ -307,7 +372,8 @@ def _run_cutoff(case, ck):
     e = float(np.abs(f - ref)[ok].max() / peak)
     ck.metric("cutoff-error", e)
     ck.true("mielens-vs-lens-large-rho", e <= 1e-5,
-            "at k*rho = %r MieLens returns %r while the converged "
+            "MieLens(quad_npts=" + str(npts) + "): at k*rho = %r it returns %r "
+            "while the converged "
             "Lens(Mie) [%dx%d] gives |E| = %.3e (%.2e of the on-axis "
             "field)" % (kr, np.abs(f).max(), N, N, np.abs(ref).max(), e))
     return digest(fp_values(f))
@@ -316,8 +382,8 @@ def _run_cutoff(case, ck):
 def run_case(case):
     ck = Checker()
     fp = {"vec": _run_vec, "ab0": _run_ab0, "interp": _run_interp,
-          "orders": _run_orders, "shim": _run_shim,
-          "cutoff": _run_cutoff}[case["kind"]](case, ck)
+          "orders": _run_orders, "shim": _run_shim, "cutoff": _run_cutoff,
+          "history": _run_history}[case["kind"]](case, ck)
     return ck.result(fp=fp)
 
 
